@@ -60,7 +60,7 @@ BOUNDS = {
               "psi": "base generic; {0, 90}",
               "jitter": "per angle: {gaussian, uniform, rectangle, boltzmann} x npts {2,3,5} x width {5, 40} deg "
                         "+ one mesh truncated by the +-360 limits",
-              "size": "first / last volume parameter dispersed", "kernel": "Iqxy; Imagnetic driven with M0=1e-300",
+              "size": "first / last volume parameter dispersed / as many as there are dispersity loops left", "kernel": "Iqxy; Imagnetic driven with M0=1e-300",
               "q": "17 detector points: 4 orbits under 90-degree rotation (quadrants, half-axes) + near-origin",
               "unoriented": "14 models", "oned": "all 21 oriented models"},
     "thorough": {"models": "all 21 oriented models", "D": 3, "alphabet": "as quick",
@@ -113,7 +113,9 @@ def alternatives(ctx, dim):
         out.append(["uniform", 5, 400.0])        # truncated by the +-360 limits to 3 points, |cos| of 200 degrees
         return out
     if dim == "size":
-        return [["first", "gaussian", 3, 0.15], ["last", "schulz", 2, 0.2]]
+        # "fill": as many volume parameters dispersed as there are dispersity loops left, so that an angle WITHOUT
+        # jitter gets no loop slot and the kernel's "jitter defaults to zero" reset is what is observed
+        return [["first", "gaussian", 3, 0.15], ["last", "schulz", 2, 0.2], ["fill", "gaussian", 2, 0.1]]
     if dim == "kernel":
         return ["mag"]
     raise HarnessError("unknown dimension %r" % dim)
@@ -222,16 +224,19 @@ def par_by_name(info, name):
     raise KeyError(name)
 
 
-def size_choice(info, spec):
-    vol = [p for p in info.parameters.kernel_parameters if p.type == "volume" and p.length == 1]
-    if not vol:
-        return None
-    return (vol[0] if spec[0] == "first" else vol[-1]).name
+def size_choice(info, spec, njit=0):
+    """names of the size parameters dispersed by a size alternative"""
+    vol = [p.name for p in info.parameters.kernel_parameters if p.type == "volume" and p.length == 1]
+    if spec[0] == "first":
+        return vol[:1]
+    if spec[0] == "last":
+        return vol[-1:]
+    return vol[:max(1, info.parameters.max_pd - njit)]
 
 
 def reference(sh, info, pars, view, jit, size, Q):
     """
-    view = (theta, phi, psi); jit = [(values, weights)] for dtheta, dphi, dpsi; size = None or (name, values, weights)
+    view = (theta, phi, psi); jit = [(values, weights)] for dtheta, dphi, dpsi; size = None or [(name, values, weights)]
     Returns I[n], mag[n] (sum of |terms|), fmax (largest |F2| met), npoints
     """
     theta, phi, psi = view
@@ -247,17 +252,16 @@ def reference(sh, info, pars, view, jit, size, Q):
     qabc = np.concatenate(rows, axis=0)
     wj = np.array(wj)
     nq = len(Q)
-    if size is None:
-        svals, swts, sname = [None], [1.0], None
-    else:
-        sname, svals, swts = size
+    snames = [nm for nm, _, _ in (size or [])]
+    sgrids = [list(zip(x, w)) for _, x, w in (size or [])]
     num = np.zeros(nq)
     mag = np.zeros(nq)
     norm = 0.0
     fmax = 0.0
     npoints = 0
-    for sv, sw in zip(svals, swts):
-        p = sh.pvec(pars if sname is None else dict(pars, **{sname: float(sv)}))
+    for combo in itertools.product(*sgrids):
+        sw = float(np.prod([w_ for _, w_ in combo])) if combo else 1.0
+        p = sh.pvec(dict(pars, **{nm: float(v_) for nm, (v_, _) in zip(snames, combo)}))
         npoints += len(wj)
         if not sh.valid(p):
             continue
@@ -350,21 +354,24 @@ def _run_orient(case, ctx):
                     br.append("jitter-truncated-by-limits")
                 if np.any(np.abs(x) > 90.0) and ang == "theta":
                     br.append("cos(dtheta)<0")
+        njit = sum(1 for k in ("jtheta", "jphi", "jpsi") if cfg[k])
         size = None
         if cfg["size"]:
-            sname = size_choice(info, cfg["size"])
-            if sname is not None:
-                _, t, n, width = cfg["size"]
+            _, t, n, width = cfg["size"]
+            size = []
+            for sname in size_choice(info, cfg["size"], njit):
                 sx, sw = refmodel.par_dist(par_by_name(info, sname), t, n, width, 3.0, pars[sname])
                 pars.update({sname + "_pd": width, sname + "_pd_n": n, sname + "_pd_type": t,
                              sname + "_pd_nsigma": 3.0})
-                size = (sname, sx, sw)
-                br.append("size-dispersed")
+                size.append((sname, sx, sw))
+            br.append("size-dispersed")
+            nangles = 3 if asym else 2
+            if len(size) + njit >= info.parameters.max_pd and njit < nangles:
+                br.append("angle-without-loop-slot")
         if cfg["kernel"] == "mag":
             # drives the Imagnetic instantiation of the rotation/jitter code; 1e-300 leaves every SLD unchanged
             pars[sld_names[0] + "_M0"] = 1e-300
             br.append("magnetic-kernel")
-        njit = sum(1 for k in ("jtheta", "jphi", "jpsi") if cfg[k])
         br.append("jitter-angles:%d" % njit)
         if cfg["theta"] in (0.0, 180.0):
             br.append("theta-pole")
@@ -438,7 +445,7 @@ def _run_oned(case, ctx):
     k1d = m.make_kernel([q.copy()])
     k2d = m.make_kernel([Q[:, 0].copy(), Q[:, 1].copy()])
     base = _defaults(info)
-    sname = size_choice(info, ["first"])
+    sname = size_choice(info, ["first"])[0]
     sizepd = {sname + "_pd": 0.15, sname + "_pd_n": 3, sname + "_pd_type": "gaussian", sname + "_pd_nsigma": 3.0}
     values = {a: _gen(ctx, a) for a in angles}
     jit = {}
@@ -569,6 +576,7 @@ def finish(ctx, report):
     report.require("size-dispersed", 100, "size dispersity combined with orientation")
     report.require("magnetic-kernel", 100, "Imagnetic instantiation")
     report.require("theta-pole", 100, "theta = 0 / 180")
+    report.require("angle-without-loop-slot", 100, "all dispersity loops taken, an un-jittered angle relies on the zero default")
     report.require("oned", 100, "1-D invariance configurations")
     report.require("oned-2d-moved", 50, "1-D invariance where the 2-D result does move")
     report.require("unoriented", 40, "unoriented models")
